@@ -98,6 +98,15 @@ pub fn curated(ctx: &Ctx) -> Vec<BuildSpec> {
     s.name = "empty-prog".into();
     s.scripts.insert("pre_install", ScriptSpec { script: "true".into(), flags: None, prog: Some(vec![]) });
     v.push(s);
+    // explicit modes without type bits (FileOptions::mode(0o644)): the content is packaged all the same
+    let mut s = one_file();
+    s.name = "raw-modes".into();
+    for (i, m) in [0o644, 0o755, 0o100600, 0o104755].iter().enumerate() {
+        let mut f = FileSpec::new(&format!("/raw/f{}", i), Content::Text(10 + i));
+        f.mode = ModeSpec::Raw(*m);
+        s.files.push(f);
+    }
+    v.push(s);
     // without a source date (build time = now)
     let mut s = one_file();
     s.source_date = None;
